@@ -146,6 +146,7 @@ BOOKKEEP = [
                 ("R20-into-to-from", "amount: evaluated.amount.into(),", "amount: Amount::from(evaluated.amount),", 1)],
       body_start="""
     let ghost mut deltas: Seq<PostingAmount> = Seq::empty();
+    let ghost mut bal_after_postings: Map<Account, Map<Commodity, real>> = bal@;
 """,
       loops={0: """
         invariant
@@ -167,13 +168,18 @@ BOOKKEEP = [
         }
 """},
       after_loop={0: """
-    proof { lemma_count_unc_mono(txn.posts@, 0, txn.posts@.len() as int); }
+    proof { lemma_count_unc_mono(txn.posts@, 0, txn.posts@.len() as int); bal_after_postings = bal@; }
 """},
       after_top_if={0: """
     proof {
         if unfilled is Some {
             let u = unfilled->Some_0.value as int;
             assert(postings@[u].amount@ == mneg(sum_deltas(deltas)));
+            // C03: the deduced amount is booked on the deduced posting's own account and nowhere else   @add_transaction.deduced_booked_on_its_account_only
+            assert(bal@ == bal_after_postings.insert(postings@[u].account,
+                nz(madd(bget(bal_after_postings, postings@[u].account), postings@[u].amount@))));
+        } else {
+            assert(bal@ == bal_after_postings);   // @add_transaction.balance_check_does_not_touch_balances
         }
         assert(accepted_with(&*ctx, postings@, txn.posts@, deltas));
         assert(accepted(&*ctx, postings@, txn.posts@));
